@@ -1,5 +1,6 @@
 import SdJwt.Lemmas.Reject
 import SdJwt.Lemmas.Strip
+import SdJwt.Lemmas.RestoreAll
 /-!
 # C03 — the verifier never returns what the issuer did not sign, whatever the holder sends
 
@@ -8,7 +9,17 @@ repetitions, foreign, altered or malformed strings — the verifier either rejec
 original claims with some disclosable claims absent; for a repetition-free, ancestor-closed list
 of own disclosures it accepts and reveals exactly those claims, independent of order.
 
-Proved here for ARBITRARY lists: a repeated disclosure is rejected (`C03_repeated_rejected`, D5);
+`C03_sound` is the first half at full strength (T-restore): for every conformant tree `T` and ANY
+list of presented strings, restoration fails or strips to `T.project S`, `S` = the hashes of the
+presented strings — by definition of `project` that is the original with marked nodes outside `S`,
+and everything inside them, absent: never a member, value, element, multiplicity or order outside
+`plain T`, never a node whose own or an enclosing disclosure was not presented. `C03_order` shows
+the result depends on the set of presented strings only. The acceptance half ("a clean
+ancestor-closed list IS accepted") additionally needs the validating pre-pass to succeed on
+conformant input; that direction is covered by the correspondence run (list kind
+`clean-ancestor-closed`), see `C03_complete_partial`.
+
+Also proved for ARBITRARY payloads and lists: a repeated disclosure is rejected (`C03_repeated_rejected`, D5);
 any undecodable or malformed string is rejected (`C03_malformed_rejected`); restoration never
 panics; and whatever restoration produced, stripping a holder view of the token's tree yields a
 projection of the original claims (`C03_strip_is_projection`): nothing outside `plain T`, nothing
@@ -111,3 +122,44 @@ values, elements, multiplicities and order are those of `plain T`, restricted to
 theorem C03_strip_is_projection (S : String → Bool) (T : MJ) (wf : T.WF) :
     removeAll (T.hview S) = T.project S :=
   MJ.removeAll_hview S T wf
+
+/-- **Soundness, for every conformant tree and every list an attacker can type.** Hypotheses:
+`TreeInv T` (well formed, digests and mark digests pairwise distinct); every decodable presented
+string is acceptable for `T` (`DOk`: it agrees with the tree's node of the same digest, if any, and
+its digest is not that of a decoy) — both are consequences of SHA-2 collision resistance. -/
+theorem C03_sound (env : Env) (T : MJ) (strs : List String) (inv : TreeInv T)
+    (hacc : ∀ s ∈ strs, ∀ d, fromBase64 env s = .ok d → DOk T d) :
+    (∃ e, restoreAll env T.payload strs = .err e) ∨
+    ∃ c ps, restoreAll env T.payload strs = .ok (c, ps) ∧
+      removeAll c = T.project (fun h => strs.any (fun s => env.hash s = h)) :=
+  restoreAll_sound env T strs inv hacc
+
+/-- the revealed claims depend only on the set of presented strings: any permutation (indeed any
+list with the same members) selects the same projection -/
+theorem C03_order (env : Env) (T : MJ) (strs strs' : List String) (h : ∀ s, s ∈ strs ↔ s ∈ strs') :
+    T.project (fun g => strs.any (fun s => env.hash s = g)) =
+    T.project (fun g => strs'.any (fun s => env.hash s = g)) := by
+  congr 1
+  funext g
+  apply Bool.eq_iff_iff.mpr
+  simp only [List.any_eq_true, decide_eq_true_eq]
+  constructor
+  · rintro ⟨s, hs, e⟩; exact ⟨s, (h s).mp hs, e⟩
+  · rintro ⟨s, hs, e⟩; exact ⟨s, (h s).mpr hs, e⟩
+
+/-- acceptance, the proved part: once the validating pre-pass has succeeded (which it does on
+conformant input, as the run confirms), the rounds themselves never fail on acceptable
+disclosures, whatever their order -/
+theorem C03_complete_partial (T : MJ) (L : List Disc) (inv : TreeInv T) (hok : ∀ d ∈ L, DOk T d)
+    (hdist : Distinct L) :
+    ∃ c ps, rounds L.length T.payload L [] = .ok (c, ps) ∧
+      removeAll c = T.project (fun h => L.any (fun d => d.digest = h)) :=
+  rounds_project T L inv hok hdist
+
+/-- non-vacuity: a conformant tree with a nested mark and an array mark satisfies `TreeInv` -/
+example :
+    let T : MJ := .obj (.marked "a" "g1" (.obj (.marked "k" "g3" (.leaf .null) .nil) (some ["g3"]))
+                    (.clear "n" (.arr (.marked "g2" (.leaf (.str "x")) (.clear (.leaf (.str "y")) .nil))) .nil))
+                  (some ["d0", "g1"])
+    T.digests.Nodup ∧ T.allMarks.Nodup := by
+  decide
